@@ -188,6 +188,31 @@ def leg_a(scratch, module, cfg, workers=None, timeout=1800, heap="8g", expect_fa
     return r
 
 
+def simulate_scenarios(scratch, module, cfg, num, depth, seed, timeout=600):
+    """Model -> code: let TLC simulate `num` behaviours of a generator module and collect the histories it
+    prints as <<"SCN", json>> (de-duplicated, in order of first appearance)."""
+    wd = scratch.sub("sim-" + module)
+    stage_spec(wd)
+    shutil.copyfile(os.path.join(SPEC, cfg), os.path.join(wd, cfg))
+    r = tlc(wd, module + ".tla", cfg, workers=1, timeout=timeout, heap="2g",
+            extra=["-simulate", "num=%d" % num, "-depth", str(depth), "-seed", str(seed)])
+    if "rror" in r["out"] and "SCN" not in r["out"]:
+        raise Infra("TLC simulation of %s failed:\n%s" % (module, r["out"][-2000:]))
+    seen, out = set(), []
+    for m in re.finditer(r'<<"SCN", ("(?:[^"\\]|\\.)*")>>', r["out"]):
+        try:
+            txt = json.loads(m.group(1))
+            if txt in seen:
+                continue
+            seen.add(txt)
+            out.append(json.loads(txt))
+        except ValueError:
+            continue
+    if r["invariant_violated"]:
+        raise Infra("generator model %s violates its own invariant %s (design problem, not a code violation)" % (module, r["invariant_violated"]))
+    return out
+
+
 def cfg_text(spec="TraceSpec", consts=None, invariants=(), post="TraceAccepted", extra=""):
     lines = ["SPECIFICATION " + spec]
     if consts:
